@@ -88,7 +88,7 @@ theorem C09_decode_compressed_nested_json_to_flat_partial (a : Bool) (t : List D
   have htree : w.tree = .ok w.nodes := by
     unfold Wired.tree Wired.fuel
     rw [htab]
-    exact resolveList_plain o0 (2 * w.st.next + 2) ⟨by omega, fun _ => by omega⟩ w.nodes hp
+    exact resolveList_plain o0 (2 * w.st.next + 3) ⟨by omega, fun _ => by omega⟩ w.nodes hp
   have hwire : wire t o0 = .ok w.nodes := by unfold wire; rw [hw]; exact htree
   refine ⟨w.nodes, hwire, ?_, fun o ho hsame => ?_⟩
   · unfold wireAll
@@ -229,8 +229,8 @@ theorem C09_compressed_missing_count_breaks :
 theorem C09_links_of_sound {o : SubsetOut}
     (h : ∀ l ∈ o.links, ∃ e, o.descs[l.2]? = some (.plain e) ∧
       ∃ p id, l.2 < p ∧ p < l.1 ∧ C07.IsBitmapOp id ∧ o.descs[p]? = some (.oper id)) :
-    ∀ l ∈ o.links, ∃ p id, l.2 < p ∧ p < l.1 ∧ C07.IsBitmapOp id ∧ o.descs[p]? = some (.oper id) :=
-  fun l hl => (h l hl).elim fun _ x => x.2
+    ∀ l ∈ o.links, NotA o l.2 ∧ ∃ p id, l.2 < p ∧ p < l.1 ∧ C07.IsBitmapOp id ∧ o.descs[p]? = some (.oper id) :=
+  fun l hl => (h l hl).elim fun e x => ⟨⟨.plain e, x.1, rfl⟩, x.2⟩
 
 /-- the link to the coder for `wireLinksOK` templates, uncompressed -/
 theorem C09_decode_links_linked (t : List Desc) (hq : wireLinksOK t = true) (bits rest : Bits) (o : SubsetOut)
@@ -274,7 +274,7 @@ theorem C09_decode_links_owner_partial (t : List Desc) (hq : wireLinksOK t = tru
       (∀ q ∈ o.links, ∃ p ∈ w.st.tab, p.2.index? = some q.1) := by
   obtain ⟨w, hl⟩ := C09_decode_links_linked t hq bits rest o h
   refine ⟨w, hl.wired, fun p hp => ?_, hl.shown⟩
-  obtain ⟨k, i, own, e, h1, _, h3, _⟩ := hl.owners p hp
+  obtain ⟨k, i, own, e, h1, _, h3, _, _⟩ := hl.owners p hp
   exact ⟨k, i, own, e, h1, h3⟩
 
 /-- the connection to C07: on templates that are also `Spec.WFlinks` the owner in the tree is the owner `Spec.links`
@@ -412,7 +412,7 @@ theorem C09_decode_compressed_links_wire_partial (t : List Desc) (hq : wireLinks
   obtain ⟨hd, hlk, hlen⟩ := hall o ho
   have hn : w.st.next = o.vals.length := by rw [hl.next, hlen, hd, hl.len]
   refine ⟨hn, by rw [C09_wire_indices_consecutive t o0 w hl.wired, hn], fun p hp => ?_, by rw [hlk]; exact hl.shown⟩
-  obtain ⟨k, i, own, e, h1, _, h3, _⟩ := hl.owners p hp
+  obtain ⟨k, i, own, e, h1, _, h3, _, _⟩ := hl.owners p hp
   exact ⟨k, i, own, e, h1, by rw [hlk]; exact h3⟩
 
 /-- compressed data, EVERY subset: `wireAll` succeeds with the shared tree, and for every subset that carries the
@@ -527,7 +527,8 @@ example : ((decodeSubset exAcross (zeros' 60)).toOption.map fun r =>
     (r.1.links, (wireRaw exAcross r.1).toOption.map fun w => w.st.tab.length)) = some ([(5, 0)], some 0) ∧
     linkStatement exAcross (zeros' 60) = false := by decide +kernel
 
-/-- EXCLUDED, findings F11c / F11d / F11-C07-wire-*: any 204 (`204004 031021 012001 223000 101001 031031 223255 204000`) -/
+/-- EXCLUDED, findings F11c / F11d / F11-C07-wire-*: 204 IN FORCE over a bit-map construct
+    (`204004 031021 012001 223000 101001 031031 223255 204000`) -/
 def exF11c : List Desc :=
   [.op 204004, .elem (exE 31021 6), .elem (exE 12001 12), .op 223000, .fixedRep 101001 [.elem exB], .op 223255,
    .op 204000]
@@ -563,6 +564,18 @@ example : Spec.WFlinks exW := by decide +kernel
 example : ((decodeSubset exW (zeros' 200)).toOption.map fun r => Spec.markersOk (r.1.descs.zip r.1.vals)) = some true := by
   decide +kernel
 example : linkStatement exW (zeros' 200) = true := by decide +kernel
+
+/-- round 4: an associated field in a stretch of its own next to bit-map constructs is inside the class now:
+    `204004 031021 012001 012002 204000 222000 236000 101002 031031 101002 033007 223000 237000 223255` -/
+def exA : List Desc :=
+  [.op 204004, .elem (exE 31021 6), .elem (exE 12001 12), .elem (exE 12002 12), .op 204000, .op 222000, .op 236000,
+   .fixedRep 101002 [.elem exB], .fixedRep 101002 [.elem exQ33], .op 223000, .op 237000, .op 223255]
+
+example : wireLinksOK exA = true ∧ quietList true exA = false ∧ quietList false exA = false := by decide +kernel
+example : linkStatement exA (zeros' 200) = true := by decide +kernel
+example : ((decodeSubset exA (zeros' 200)).toOption.map fun r =>
+    ((wire exA r.1 >>= renderNested r.1) >>= nestedJsonToFlat).toOption == some r.1.vals) = some true := by
+  decide +kernel
 
 /-! ## Stage 3: the property statement over the union of the proved classes -/
 
@@ -619,7 +632,7 @@ theorem C09_decode_hierarchical_view (t : List Desc) (hq : C09.viewClass t = tru
   · obtain ⟨w, hl⟩ := C09_decode_links_linked t hq bits rest o h
     refine ⟨w, hl.wired, hl.next, C09_wire_consumes_each_index_once_partial t o w hl.wired hl.next, fun p hp => ?_,
       C09_decode_links_chain_partial t hq bits rest o h⟩
-    obtain ⟨k, i, own, e, h1, _, h3, _⟩ := hl.owners p hp
+    obtain ⟨k, i, own, e, h1, _, h3, _, _⟩ := hl.owners p hp
     exact ⟨k, i, own, e, h1, h3⟩
 
 /-- non-vacuity: one template of each of the three classes is in `viewClass` and decodes -/
